@@ -158,11 +158,13 @@ PROPS = {
         "assumed": [],
     },
     "C08": {
-        "verus": ["markers"],
+        "verus": ["markers", ("verify_history", ["verify_with_history_params", "key_history_verify", "verify_single_update_proof", "lemma_l2", "lemma_consecutive"]),
+                  ("verify_lookup", ["lookup_verify"])],
         "search": True,
         "always_search": True,
         "scope": "get_marker_versions contains the closed-form marker sets for all u64 (s, e, E); lemma L1 (history vs history) for all n < m <= E and all ranges; "
-                 "server/verifier marker-exponent agreement. lookup(m > n) vs complete history(n) is a known finding (not a theorem).",
+                 "server/verifier marker-exponent agreement; L2: an accepted complete history for n shows the stale leaf of every m < n present (the leaf an accepted lookup for m shows absent), "
+                 "over the verifier contracts of key_history_verify / lookup_verify. lookup(m > n) vs complete history(n) is a known finding (not a theorem).",
         "trusted": ["T4 Merkle soundness turns 'shown present' and 'shown absent' for one (label, freshness, version) under one root into a contradiction (C05 + collision resistance)"],
         "assumed": [],
     },
